@@ -156,6 +156,24 @@ def wait_obs(oid, label, wait_state, inp, spec, tz, delay_ms, redeliver=False):
             "spec": spec, "status": notes[-1] if notes else "", "tz": tz, "delay": delay_ms}
 
 
+def fanout_wait_obs(oid, label, asl, inp, secs, tz):
+    """Every Wait entered inside a fan-out (branches, iterations, the later blocks of a Map with MaxConcurrency) is one
+    "wait" observation: entered = the instant its event was published, handled = the instant the engine took it,
+    done = the instant its timer fired."""
+    ev = Drive(S.scn("c08-fanwait", asl, inputs=(inp,)), tz).run()
+    out = []
+    notes = [e["status"] for e in ev if e["k"] == "note"]
+    for pw in ev:
+        if not (pw["k"] == "pub" and pw.get("kind") == "event" and pw.get("stype") == "Wait"):
+            continue
+        frames = [e for e in ev if e["k"] == "frame" and e.get("cause") == "deliver" and e.get("mid") == pw["mid"]]
+        fired = [e for e in ev if e["k"] == "frame" and e.get("cause") == "timer" and e.get("kind") == "wait" and pw["mid"] in e.get("trig", [])]
+        out.append({"id": oid(), "kind": "wait", "label": "%s %s%s" % (label, pw.get("state"), json.dumps(pw.get("branch"))),
+                    "entered": pw["t"], "handled": frames[0]["t"] if frames else -1, "done": fired[0]["t"] if fired else -1,
+                    "spec": {"k": "seconds", "n": secs}, "status": notes[-1] if notes else "", "tz": tz, "delay": 0})
+    return out
+
+
 def task_obs(oid, label, timeout_s, reply_ms, catch, tz, delay_ms, exect=0):
     """exect: a machine-level TimeoutSeconds as well (0: none) -- the execution starts at instant 0"""
     T, P, SM = S.T, S.P, S.SM
@@ -240,6 +258,15 @@ def run(tier_name=None, replay=None):
                         obs.append(wait_obs(oid(), "Timestamp " + text, {"Type": "Wait", "Timestamp": text}, {}, spec, tz, delay, red))
                         if off in (0, 330, -210):
                             obs.append(wait_obs(oid(), "TimestampPath " + text, {"Type": "Wait", "TimestampPath": "$.t"}, {"t": text}, spec, tz, delay, red))
+    # 2b. Waits inside fan-outs: every branch, every iteration, every block of a Map with MaxConcurrency waits its full time
+    Wt, P, SM, Par, Mp = S.Wt, S.P, S.SM, S.Par, S.Mp
+    for tz in tzs[:1] if not thorough else tzs:
+        for secs in (3, 10):
+            obs += fanout_wait_obs(oid, "map-mc1", SM("M", M=Mp(SM("W", W=Wt(secs, Next="B"), B=P(End=True)), MaxConcurrency=1, End=True)), [1, 2, 3], secs, tz)
+            obs += fanout_wait_obs(oid, "map-mc2-wait-last", SM("M", M=Mp(SM("A", A=P(Next="W"), W=Wt(secs, End=True)), MaxConcurrency=2, End=True)), [1, 2, 3, 4, 5], secs, tz)
+            obs += fanout_wait_obs(oid, "map-wait-only", SM("M", M=Mp(SM("W", W=Wt(secs, End=True)), MaxConcurrency=2, Next="Z"), Z=Wt(secs, End=True)), [1, 2, 3], secs, tz)
+            obs += fanout_wait_obs(oid, "par", SM("Q", Q=Par([SM("W1", W1=Wt(secs, End=True)), SM("A", A=P(Next="W2"), W2=Wt(secs, Next="W3"), W3=Wt(secs, End=True))], End=True)), {}, secs, tz)
+            obs += fanout_wait_obs(oid, "map-in-map", SM("M", M=Mp(SM("N", N=Mp(SM("W", W=Wt(secs, End=True)), MaxConcurrency=1, End=True)), MaxConcurrency=1, End=True)), [[1, 2], [3]], secs, tz)
     for o in obs:
         if o["kind"] == "wait" and o["spec"]["k"] == "seconds":
             o["spec"] = dict(o["spec"], s=[], base=[0, 0, 0])
